@@ -43,7 +43,12 @@ pub mod ipose {
                 if left == 1 {
                     *libc::__errno_location() = libc::EIO;
                     if ENABLED.load(Ordering::Relaxed) {
-                        LOG.lock().unwrap().push(Ev::Ptrace { req, pid, addr: addr as u64, data: data as u64, ret: -1, errno: libc::EIO, rip: 0 });
+                        let mut log = LOG.lock().unwrap();
+                        // (C16) the register file a faulted SETREGS asked for is part of the traffic too
+                        if REGS_ENABLED.load(Ordering::Relaxed) && req == libc::PTRACE_SETREGS && !data.is_null() {
+                            REGLOG.lock().unwrap().push((log.len(), *(data as *const libc::user_regs_struct)));
+                        }
+                        log.push(Ev::Ptrace { req, pid, addr: addr as u64, data: data as u64, ret: -1, errno: libc::EIO, rip: 0 });
                     }
                     return -1;
                 }
